@@ -276,6 +276,12 @@ C16_truth(o) ==
            /\ r.edges = {d \in VEdges(o.post) : d[1] \in {r.ids[k] : k \in 1..Len(r.ids)}}
       [] OTHER -> TRUE
 
+\* every row of every list read (whatever the filter) shows its item as the unfiltered
+\* reads show it: state, claimant, epic, ready and blocked flags (o.rows: the rows the
+\* driver found to differ)
+C16_rows(o) == o.rows = <<>>
+C08_rows(o) == o.rows = <<>>
+
 \* an acknowledged `set` is in effect: the epic it named (the empty one included - "no
 \* epic" can be said in JSON only) and a released claim are what the next read shows
 C16_set_applied(o) ==
